@@ -89,19 +89,30 @@ def run_maybe_init_face(run, funcs, case, tag=''):
     cell = convex_cell(idx, loc, [half_space(n, p, right, sh)], case.dim)
     name = engine.find_fn(funcs, r'from_convex_cell::\{closure#1\}$')
     f = funcs[name]
-    caps = capture_order(f, ['convex_cell', 'idx', 'mask'])
+    caps = {}
+    for nm_ in ('convex_cell', 'idx', 'mask'):
+        try:
+            caps.update(capture_order(f, [nm_]))
+        except Inconclusive:
+            pass                # a rule that does not look at this value simply does not capture it
+    if 'convex_cell' not in caps:
+        raise Inconclusive('the face rule closure does not capture the cell')
     interp = engine.new_interp(funcs)
     st = State()
-    pre = [idx >= 0, j >= 0, nmask > idx, nmask > j, idx != j]
+    pre = [idx >= 0, j >= 0, nmask > idx, nmask > j]
+    if not case.shift_some:
+        pre.append(idx != j)        # an unshifted plane separates two different cells; a shifted one may belong to an image of the cell itself
     st.pc.extend(pre)
     st.heap[1] = cell
     st.heap[2] = idx
     st.heap[3] = SymArr(maskf, nmask)
     st.heap[4] = some(Ref(('H', 3))) if case.mask_some else none()
-    capvals = [None] * 3
+    capvals = [None] * len(caps)
     capvals[caps['convex_cell']] = Ref(('H', 1))
-    capvals[caps['idx']] = Ref(('H', 2))
-    capvals[caps['mask']] = Ref(('H', 4))
+    if 'idx' in caps:
+        capvals[caps['idx']] = Ref(('H', 2))
+    if 'mask' in caps:
+        capvals[caps['mask']] = Ref(('H', 4))
     st.heap[5] = Agg('closure', capvals)
     st.heap[6] = none() if not case.pre_some else some(Agg('VoronoiFace', (Opaque('existing'),)))
     outs = interp.exec_fn(st, name, [Ref(('H', 5)), Ref(('H', 6)), 0], {'M': 'WithoutFaces'})
